@@ -19,6 +19,9 @@ pub struct Case {
     /// 0 inverse, 1 inverse_continuing, 2 inverse_5dof(j6), 3 inverse_continuing_5dof
     pub entry: u8,
     pub j6: f64,
+    /// call history: the same query is first put to this other robot (results ignored); answers must not depend on it
+    #[serde(default)]
+    pub other: Option<RobotSpec>,
 }
 
 pub const ENTRY_NAMES: [&str; 4] = ["inverse", "inverse_continuing", "inverse_5dof", "inverse_continuing_5dof"];
@@ -77,8 +80,8 @@ impl Property for C01 {
         crate::selftest::model_vs_recorded()
     }
     fn strategy(&self, _tier: Tier) -> BoxedStrategy<Case> {
-        (robot_any(DofChoice::Both), pose_any(), prev_any(), 0u8..4, prop_oneof![Just(0.0), -10.0..10.0f64])
-            .prop_map(|(robot, pose, prev, entry, j6)| Case { robot, pose, prev, entry, j6 })
+        (robot_any(DofChoice::Both), pose_any(), prev_any(), 0u8..4, prop_oneof![Just(0.0), -10.0..10.0f64], prop_oneof![3 => Just(None), 1 => robot_any(DofChoice::Both).prop_map(Some)])
+            .prop_map(|(robot, pose, prev, entry, j6, other)| Case { robot, pose, prev, entry, j6, other })
             .boxed()
     }
     fn check(&self, c: &Case, ctx: &mut Ctx) -> Res {
@@ -93,6 +96,11 @@ impl Property for C01 {
         let src = c.pose.source_joints(r);
         let prev = c.prev.resolve(src);
         let what = ENTRY_NAMES[(c.entry % 4) as usize];
+        if let Some(o) = &c.other {
+            let ko = opw(o);
+            let _ = call_entry(&ko, c.entry % 4, &na, &prev, c.j6).map_err(|m| viol!("inverse kinematics never panics", "{} on the other robot panicked: {}", what, m))?;
+            ctx.class("history:another robot answered the same query first");
+        }
         let sols = call_entry(&k, c.entry % 4, &na, &prev, c.j6).map_err(|m| viol!("inverse kinematics never panics", "{} panicked: {}", what, m))?;
         ctx.class(&format!("solutions:{}", sols.len().min(9)));
 
